@@ -53,7 +53,7 @@ std::string unesc(const std::string &s) {
   return o;
 }
 
-static const char *kOpNames[] = {"CREATE", "SET", "DEFINE", "PARSE", "ERRQ", "WALK", "FREE_TREE", "FREE_GRAMMAR"};
+static const char *kOpNames[] = {"CREATE", "SET", "DEFINE", "PARSE", "ERRQ", "WALK", "FREE_TREE", "FREE_GRAMMAR", "CONFIG"};
 static const char *kSetNames[] = {"lookahead", "debug", "one_parse", "cost", "recovery", "match"};
 static const char *kAllocNames[] = {"custom+free", "custom", "default", "null+free"};
 
@@ -113,6 +113,10 @@ std::string op_to_text(const Op &op) {
   case OP_ERRQ: o << " obj=" << op.obj; break;
   case OP_WALK: case OP_FREE_TREE: o << " tree=" << op.tree; break;
   case OP_FREE_GRAMMAR: o << " obj=" << op.obj; break;
+  case OP_CONFIG:
+    o << " knobs=" << op.c_knobs << " cache_skip=" << op.c_cache_skip << " selfcheck=" << op.c_selfcheck << " realloc=" << op.c_realloc
+      << " sink=" << op.c_sink;
+    break;
   }
   if (op.fault.type != Fault::NONE) o << " fault=" << fault_to_text(op.fault);
   return o.str();
@@ -251,7 +255,7 @@ bool plan_from_text(const std::string &text, Plan *out, std::string *err) {
       Op op;
       op.task = atoi(w[1].c_str() + 1);
       int k = -1;
-      for (int i = 0; i < 8; i++) if (w[2] == kOpNames[i]) k = i;
+      for (int i = 0; i < 9; i++) if (w[2] == kOpNames[i]) k = i;
       if (k < 0) return fail("unknown op " + w[2]);
       op.kind = (OpKind)k;
       size_t i = 3;
@@ -271,6 +275,11 @@ bool plan_from_text(const std::string &text, Plan *out, std::string *err) {
         else if (kv(w[i], "in", &v)) op.input = atoi(v.c_str());
         else if (kv(w[i], "alloc", &v)) { for (int j = 0; j < 4; j++) if (v == kAllocNames[j]) op.alloc = (AllocMode)j; }
         else if (kv(w[i], "fault", &v)) { if (!fault_from_text(v, &op.fault)) return fail("bad fault " + v); }
+        else if (kv(w[i], "knobs", &v)) { op.c_knobs = atoi(v.c_str()); if (op.c_knobs < 0 || op.c_knobs >= kNumKnobs) return fail("bad knob preset"); }
+        else if (kv(w[i], "cache_skip", &v)) op.c_cache_skip = atoi(v.c_str());
+        else if (kv(w[i], "selfcheck", &v)) op.c_selfcheck = atoi(v.c_str());
+        else if (kv(w[i], "realloc", &v)) op.c_realloc = atoi(v.c_str());
+        else if (kv(w[i], "sink", &v)) op.c_sink = atoi(v.c_str());
       }
       if (op.kind == OP_DEFINE && (op.grammar < 0 || op.grammar >= (int)p.grammars.size())) return fail("grammar index out of range");
       if (op.kind == OP_PARSE && (op.input < 0 || op.input >= (int)p.inputs.size())) return fail("input index out of range");
